@@ -390,3 +390,93 @@ extern "C" void harness_checkjoin() {
   } else VA(g_joinrec == 0);
   verif_reach();
 }
+
+// C03 / C15: one DoSplitOp step (repair of a self-intersecting output ring) from an arbitrary ring, for EVERY intersection point and
+// EVERY area verdict: GetSegmentIntersectPt, Area and AreaTriangle are replaced by arbitrary values (the obligation quantifies over them).
+//   - the repaired ring stays a consistently linked ring of the surviving input nodes (+ at most one new node at ip), with no two
+//     equal neighbours when the input had none;
+//   - a split-off triangle is the ring (ip, splitOp, splitOp->next), owned by the new OutRec;
+//   - (USINGZ) every vertex created here carries the z the callback assigned for this crossing, input vertices keep theirs.
+#ifndef SN
+#define SN 5
+#endif
+static int64_t g_ipx, g_ipy; static int g_gsip_calls; static const Point64* g_gsip_args[4];
+static double g_area1, g_area2; static OutRec* g_newor; static int g_newor_calls;
+extern "C" __attribute__((noinline)) bool stub_gsip(const Point64& a, const Point64& b, const Point64& c, const Point64& d, Point64& ip) {
+  g_gsip_calls++; g_gsip_args[0] = &a; g_gsip_args[1] = &b; g_gsip_args[2] = &c; g_gsip_args[3] = &d; ip.x = g_ipx; ip.y = g_ipy; return true;
+}
+extern "C" __attribute__((noinline)) double stub_area_op(OutPt* op) { return g_area1; }
+extern "C" __attribute__((noinline)) double stub_area_tri(const Point64& a, const Point64& b, const Point64& c) { return g_area2; }
+extern "C" __attribute__((noinline)) bool stub_p1inp2(OutPt* a, OutPt* b) { return nondet_bool(); }
+extern "C" __attribute__((noinline)) OutRec* stub_newoutrec(ClipperBase* self) { g_newor_calls++; return g_newor; }
+#ifdef USINGZ
+static int g_zcalls; static int64_t g_ztag; static Point64 g_zargs[4]; static int64_t g_zipx, g_zipy;
+static void split_zcb(const Point64& a, const Point64& b, const Point64& c, const Point64& d, Point64& pt) {
+  g_zcalls++; g_zargs[0] = a; g_zargs[1] = b; g_zargs[2] = c; g_zargs[3] = d; g_zipx = pt.x; g_zipy = pt.y; pt.z = g_ztag;
+}
+#endif
+extern "C" void harness_dosplitop() {
+  Clipper64& c = *new Clipper64();
+  c.using_polytree_ = nondet_bool();
+  OutRec* rec = new OutRec(); OutRec* owner = new OutRec(); rec->owner = nondet_bool() ? owner : nullptr;
+  g_newor = new OutRec();
+  OutPt* ops[SN]; int64_t zin[SN];
+  for (int i = 0; i < SN; ++i) {
+    Point64 p(nd_range(0, G), nd_range(0, G));
+#ifdef USINGZ
+    zin[i] = nondet_i64(); p.z = zin[i];
+#endif
+    ops[i] = new OutPt(p, rec);
+  }
+  for (int i = 0; i < SN; ++i) { ops[i]->next = ops[(i + 1) % SN]; ops[i]->prev = ops[(i + SN - 1) % SN]; }
+  // the ring CleanCollinear hands over has no equal neighbours; properly crossing segments have four distinct end points
+  for (int i = 0; i < SN; ++i) ASSUME(!(ops[i]->pt == ops[(i + 1) % SN]->pt));
+  ASSUME(!(ops[0]->pt == ops[3]->pt));
+  rec->pts = ops[nd_int(0, SN - 1)];
+  g_ipx = nd_range(0, G); g_ipy = nd_range(0, G);
+  g_area1 = nondet_double(); g_area2 = nondet_double(); ASSUME(g_area1 == g_area1 && g_area2 == g_area2);
+#ifdef USINGZ
+  bool with_cb = nondet_bool(); g_ztag = nondet_i64();
+  if (with_cb) c.SetZCallback(split_zcb);
+#endif
+  OutPt* prevOp = ops[0]; OutPt* splitOp = ops[1]; OutPt* nextOp = ops[2]; OutPt* nnOp = ops[3];
+  c.DoSplitOp(rec, splitOp);
+  VA(g_gsip_calls == 1 && g_gsip_args[0] == &prevOp->pt && g_gsip_args[1] == &splitOp->pt && g_gsip_args[2] == &nextOp->pt && g_gsip_args[3] == &nnOp->pt);
+  double a1 = g_area1 < 0 ? -g_area1 : g_area1, a2 = g_area2 < 0 ? -g_area2 : g_area2;
+  if (!rec->pts) { VA(a1 < 2); VA(g_newor_calls == 0); verif_reach(); return; }
+  VA(!(a1 < 2));
+  // main ring: prevOp, [new node at ip], nnOp, ops[4..]
+  VA(rec->pts == prevOp);
+  OutPt* n1 = prevOp->next; OutPt* fresh = nullptr;
+  if (n1 != nnOp) { fresh = n1; for (int i = 4; i < SN; ++i) { VA(fresh != ops[i]); ASSUME(fresh != ops[i]); }
+    VA(fresh->pt.x == g_ipx && fresh->pt.y == g_ipy && fresh->prev == prevOp && fresh->next == nnOp && nnOp->prev == fresh && fresh->outrec == rec); }
+  else VA(nnOp->prev == prevOp);
+  for (int i = 3; i < SN; ++i) { VA(ops[i]->next == ops[(i + 1) % SN]); VA(ops[(i + 1) % SN]->prev == ops[i]); VA(ops[i]->outrec == rec); }
+  // no equal neighbours in the repaired ring
+  if (fresh) { VA(!(fresh->pt == prevOp->pt)); VA(!(fresh->pt == nnOp->pt)); }
+  else VA(!(prevOp->pt == nnOp->pt));
+  // the vertex at ip is left out only when it coincides with a neighbour it would sit next to
+  if (!fresh) VA((g_ipx == prevOp->pt.x && g_ipy == prevOp->pt.y) || (g_ipx == nnOp->pt.x && g_ipy == nnOp->pt.y));
+  OutPt* tri = nullptr;
+  if (g_newor_calls) {
+    VA(g_newor_calls == 1 && a2 >= 1);
+    tri = g_newor->pts; VA(tri && tri != splitOp && tri != nextOp && tri != fresh); ASSUME(tri && tri != splitOp && tri != nextOp);
+    VA(tri->pt.x == g_ipx && tri->pt.y == g_ipy);
+    VA(tri->next == splitOp && splitOp->next == nextOp && nextOp->next == tri && tri->prev == nextOp && nextOp->prev == splitOp && splitOp->prev == tri);
+    VA(tri->outrec == g_newor && splitOp->outrec == g_newor && nextOp->outrec == g_newor && g_newor->owner == rec->owner);
+  } else VA(a2 < 1 || !(a2 > a1 || (g_area2 > 0) == (g_area1 > 0)));
+#ifdef USINGZ
+  if (with_cb) {
+    VA(g_zcalls == 1 && g_zargs[0] == prevOp->pt && g_zargs[3] == nnOp->pt && g_zipx == g_ipx && g_zipy == g_ipy);
+    if (fresh) VA(fresh->pt.z == g_ztag);
+    if (tri) VA(tri->pt.z == g_ztag);
+  } else {
+    VA(g_zcalls == 0);
+    if (fresh) VA(fresh->pt.z == 0);
+    if (tri) VA(tri->pt.z == 0);
+  }
+  VA(ops[0]->pt.z == zin[0] && ops[3]->pt.z == zin[3] && ops[SN - 1]->pt.z == zin[SN - 1]);
+  if (tri) VA(splitOp->pt.z == zin[1] && nextOp->pt.z == zin[2]);
+#endif
+  verif_reach();
+}
